@@ -57,6 +57,10 @@ CHECKS = {
          "Every application of the family {default application with every ordered route list of length <=2 (3) over 10 patterns; one host sub-app from 4 host patterns x route lists <=2 x default route lists <=2 over 5 patterns; every ordered pair of host sub-apps x route lists <=2 x default lists <=1 (2); in thorough every ordered triple of hosts} is built through the public API (with_host / with_route / with_websocket_route / with_default_subapp), so shadowing and overlap arise by construction. Each is asked, through the real connection handler over a scripted socket, for every request of Host {absent, exact, wildcard-matching, with port, non-matching} x 8 targets (with/without query, queries that contain other routes) x {plain, WebSocket upgrade} plus decoy headers. Every handler answers with its (host index, route index); the answer must equal the reference router's choice (first matching host, first matching route there, else first matching default route, else 404 / closed without upgrade), with `matches` the DP glob reference of C05.",
          "Trusted: reference router (15 lines) and the C05 glob reference. Threaded runtime only. Host patterns are matched against the raw Host header value.",
          "DESIGN.md §3 C04"),
+ "C09": ("E1-sched", "fault enumeration of scripted upstream behaviours on the simulated network with a virtual clock + stateless DFS over schedules for concurrent target selection",
+         "The real proxy_request runs against scripted upstreams on the simulated network under the controlled runtime (virtual time): every modelled status with Content-Length, chunked bodies in every composition, close-delimited, each valid response delivered in two writes at every split point, each of the 200/404/HTTP-1.0 responses cut at every byte offset followed by close or by silence, 12 garbage responses (non-HTTP, header without colon, LF-only, non-UTF-8, bad lengths, bad chunk size) followed by close or silence, connection refused, black-holed connect, accept-then-close, accept-then-silence, silence after the request, one byte per 50 ms; client requests from the C02 grammar. Oracle: the call returns (no panic, no deadlock) no later than timeout + 1 s on the virtual clock; valid upstream => exactly its status/headers/body, anything else => 502; the upstream received the client's request (C02 equality) plus one X-Forwarded-For. proxy_handler is run for prefix/blacklist/mode combinations (prefix stripped, 403 for a listed origin without touching the upstream). Round-robin: 1..3 caller threads x 2 calls against 1..3 (4) targets, every schedule within 2 (3) deviations: per-target grant counts must equal the strict rotation.",
+         "Trusted: facade network/time simulation (virtual time only advances when every thread is blocked). The added X-Forwarded-For may carry the TCP peer or the origin the client named. Random balancer mode only held to `a configured target answered`. Known findings: close-delimited upstream bodies dropped; per-read (not whole-exchange) timeout under a trickling upstream.",
+         "DESIGN.md §3 C09"),
 }
 NOT_YET = {}
 
